@@ -55,6 +55,13 @@ SCHEMAS = {
                            'fields': {'type_code': 'Opt[Int]', 'block_num': 'Opt[Int]', 'block_flags': 'Int',
                                       'crc_type': 'Int', 'btsd': 'Opt[Bytes]', 'crc_value': 'Opt[Bytes]',
                                       'payload': 'Int', '_pcls': 'Int'}},
+    # block-type-specific data classes handled when forwarding
+    'pkt:PreviousNodeBlock': {'pyclass': ('bp.encoding.blocks', 'PreviousNodeBlock'), 'pkt': True,
+                              'fields': {'node': 'Opt[Str]', 'payload': 'Int'}},
+    'pkt:BundleAgeBlock': {'pyclass': ('bp.encoding.blocks', 'BundleAgeBlock'), 'pkt': True,
+                           'fields': {'age': 'Opt[Int]', 'payload': 'Int'}},
+    'pkt:HopCountBlock': {'pyclass': ('bp.encoding.blocks', 'HopCountBlock'), 'pkt': True,
+                          'fields': {'limit': 'Opt[Int]', 'count': 'Opt[Int]', 'payload': 'Int'}},
     # administrative records (status reports)
     'pkt:AdminRecord': {'pyclass': ('bp.encoding.admin', 'AdminRecord'), 'pkt': True,
                         'fields': {'type_code': 'Opt[Int]', 'payload': 'Int', '_pcls': 'Int'}},
@@ -74,12 +81,25 @@ SCHEMAS = {
 GHOST = {
     # bundles whose processing ended with a call of _finish_bundle in this handler run (container references)
     'finished': 'List[Ref[Ctr]]',
-    # idle callbacks scheduled (kept abstract: see bp_models.glib)
+    # containers handed to GLib.idle_add together with Agent.send_bundle / Agent.recv_bundle (bp_models.glib_idle_add)
+    'sched_send': 'List[Ref[Ctr]]',
+    'sched_recv': 'List[Ref[Ctr]]',
+    # containers whose encoded bundle was handed to a convergence-layer sender callable, in order
+    'tx_out': 'List[Ref[Ctr]]',
+    # "every bundle encoded for a sender had its CRCs updated after its last modification"
+    'wire_crc_ok': 'Bool',
+    # bundles (packet references) whose CRC fields are up to date with their content
+    'crc_ok': 'Set[Pkt[Bundle]]',
+    # containers consumed by a TX chain step that took over their transmission (fragmentation)
+    'consumed': 'Set[Ref[Ctr]]',
+    # some step of a processing chain raised during this handler run
+    'step_failed': 'Bool',
 }
 
 NOTES = {
     # what a callable stored in an attribute of this name may write (see bp_models.cb_callback)
-    'callback_writes': {'action': ['Ctr.actions', 'Ctr.status_reason', 'Ctr.route', 'Ctr.sender'], 'sender': []},
+    'callback_writes': {'action': ['Ctr.actions', 'Ctr.status_reason', 'Ctr.route', 'Ctr.sender', 'ghost.consumed',
+                                   'ghost.sched_send', 'ghost.step_failed'], 'sender': []},
 }
 
 ASSUMPTIONS = [
@@ -88,4 +108,6 @@ ASSUMPTIONS = [
         'BP: re.Pattern.match is a pure function of (pattern, text)',
         'BP: processing-chain step callables of other applications (not verified here) may change the bundle container '
         'and may raise, but do not touch the agent\'s seen-identity set, forwarding queue or routing tables',
+        'BP: steps of the transmit chain set route / sender or take the bundle over (returning a true value with route and '
+        'sender cleared, as the fragmentation step does); they do not record actions on the container',
 ]
